@@ -1,10 +1,10 @@
 package c05
 
 import (
-	"fmt"
-	"strconv"
 	"encoding/json"
+	"fmt"
 	"os"
+	"strconv"
 	"strings"
 	"testing"
 
